@@ -77,7 +77,8 @@ def make_merge_check(pid):
     def run(tier, seed):
         cases = merge_cases(pid, tier, seed)
         oc = merge_family.evaluate(pid, cases)
-        oc.exhaustive = True
+        oc.exhaustive = False
+        oc.extra['exhaustive_part'] = 'the G-pos scope is enumerated completely; histories, fuzz and odd shapes are samples'
         oc.extra['scope'] = ('G-pos enumerated completely for the tier scope (see harness/gen_pos.py and '
                              'registry.merge_cases) + every step of seeded random state-aware histories run on '
                              'live objects (G-hist) + random structural mutations of those cases (G-fuzz) + unusual shapes (G-odd) + corpus of past failures')
